@@ -665,7 +665,15 @@ func FloatModeReduceSlice(a []FloatPoint) []FloatPoint {
 		return a
 	}
 
-	sort.Sort(floatPointsByValue(a))
+	// Order the points by value and, within a value, by time, so that the
+	// first point of every run carries the earliest time of its value and the
+	// result does not depend on the order in which the points arrive.
+	sort.Slice(a, func(i, j int) bool {
+		if a[i].Value != a[j].Value {
+			return a[i].Value < a[j].Value
+		}
+		return a[i].Time < a[j].Time
+	})
 
 	mostFreq := 0
 	currFreq := 0
@@ -687,7 +695,7 @@ func FloatModeReduceSlice(a []FloatPoint) []FloatPoint {
 		}
 		mostFreq = currFreq
 		mostMode = p.Value
-		mostTime = p.Time
+		mostTime = currTime
 	}
 
 	return []FloatPoint{{Time: ZeroTime, Value: mostMode}}
@@ -698,7 +706,15 @@ func IntegerModeReduceSlice(a []IntegerPoint) []IntegerPoint {
 	if len(a) == 1 {
 		return a
 	}
-	sort.Sort(integerPointsByValue(a))
+	// Order the points by value and, within a value, by time, so that the
+	// first point of every run carries the earliest time of its value and the
+	// result does not depend on the order in which the points arrive.
+	sort.Slice(a, func(i, j int) bool {
+		if a[i].Value != a[j].Value {
+			return a[i].Value < a[j].Value
+		}
+		return a[i].Time < a[j].Time
+	})
 
 	mostFreq := 0
 	currFreq := 0
@@ -720,7 +736,7 @@ func IntegerModeReduceSlice(a []IntegerPoint) []IntegerPoint {
 		}
 		mostFreq = currFreq
 		mostMode = p.Value
-		mostTime = p.Time
+		mostTime = currTime
 	}
 
 	return []IntegerPoint{{Time: ZeroTime, Value: mostMode}}
@@ -731,7 +747,15 @@ func UnsignedModeReduceSlice(a []UnsignedPoint) []UnsignedPoint {
 	if len(a) == 1 {
 		return a
 	}
-	sort.Sort(unsignedPointsByValue(a))
+	// Order the points by value and, within a value, by time, so that the
+	// first point of every run carries the earliest time of its value and the
+	// result does not depend on the order in which the points arrive.
+	sort.Slice(a, func(i, j int) bool {
+		if a[i].Value != a[j].Value {
+			return a[i].Value < a[j].Value
+		}
+		return a[i].Time < a[j].Time
+	})
 
 	mostFreq := 0
 	currFreq := 0
@@ -753,7 +777,7 @@ func UnsignedModeReduceSlice(a []UnsignedPoint) []UnsignedPoint {
 		}
 		mostFreq = currFreq
 		mostMode = p.Value
-		mostTime = p.Time
+		mostTime = currTime
 	}
 
 	return []UnsignedPoint{{Time: ZeroTime, Value: mostMode}}
@@ -765,7 +789,15 @@ func StringModeReduceSlice(a []StringPoint) []StringPoint {
 		return a
 	}
 
-	sort.Sort(stringPointsByValue(a))
+	// Order the points by value and, within a value, by time, so that the
+	// first point of every run carries the earliest time of its value and the
+	// result does not depend on the order in which the points arrive.
+	sort.Slice(a, func(i, j int) bool {
+		if a[i].Value != a[j].Value {
+			return a[i].Value < a[j].Value
+		}
+		return a[i].Time < a[j].Time
+	})
 
 	mostFreq := 0
 	currFreq := 0
@@ -787,7 +819,7 @@ func StringModeReduceSlice(a []StringPoint) []StringPoint {
 		}
 		mostFreq = currFreq
 		mostMode = p.Value
-		mostTime = p.Time
+		mostTime = currTime
 	}
 
 	return []StringPoint{{Time: ZeroTime, Value: mostMode}}
